@@ -31,6 +31,10 @@ def value_alphabet():
         ('datetime-east', 'datetime', dt(2020, 1, 2, 3, 4, 5, tzinfo=TZ(14))),
         ('datetime-west', 'datetime', dt(2020, 1, 2, 3, 4, 5, tzinfo=TZ(-5))),
         ('datetime-west', 'datetime', dt(2020, 1, 2, 3, 4, 5, tzinfo=datetime.timezone(datetime.timedelta(minutes=-30)))),
+        ('datetime-named-zone', 'datetime', dt(2020, 1, 2, 3, 4, 5, tzinfo=datetime.timezone(datetime.timedelta(hours=1), 'IST'))),
+        ('datetime-named-zone', 'datetime', dt(2020, 1, 2, 3, 4, 5, tzinfo=datetime.timezone(datetime.timedelta(hours=5, minutes=30), 'IST'))),
+        ('datetime-named-zone', 'datetime', dt(2020, 6, 2, 3, 4, 5, tzinfo=datetime.timezone(datetime.timedelta(hours=-6), 'CST'))),
+        ('datetime-named-zone', 'datetime', dt(2020, 6, 2, 3, 4, 5, tzinfo=datetime.timezone(datetime.timedelta(hours=8), 'CST'))),
         ('duration', 'duration', datetime.timedelta(days=1, seconds=3)), ('duration', 'duration', datetime.timedelta(days=-2)),
         ('duration', 'duration', datetime.timedelta(seconds=1.5)), ('duration', 'duration', isodate.Duration(years=1, months=2)),
         ('set', 'any', {1, 2}), ('set', 'any', set()),
@@ -142,10 +146,15 @@ def history_flow(root, counters):
                     {'id': 2, 'when': None, 'amt': D('-3')}]),
                   ('e', [('x', 'string')], []),
                   ('u', [('x', 'string')], [{'x': 'é'}])])
+    def bump(row):
+        # edits, in place and non-idempotently, the very row objects the checkpoint has just passed on
+        if 'id' in row:
+            row['id'] += 100
+            row['amt'] = None if row['amt'] is None else row['amt'] * 2
     return core.Flow(core.from_state(st, on_pull=lambda i, j: counters.__setitem__('src', counters['src'] + 1)),
                      counting('A'), core.dataflows.add_field('fa', 'integer', 1),
                      core.dataflows.checkpoint('c1', checkpoint_path=root),
-                     counting('B'), core.dataflows.add_field('fb', 'integer', 2),
+                     counting('B'), bump, core.dataflows.add_field('fb', 'integer', 2),
                      core.dataflows.checkpoint('c2', checkpoint_path=root),
                      counting('C'), core.dataflows.add_field('fc', 'integer', 3))
 
@@ -290,7 +299,8 @@ def run(run):
     cases = [{'vals': [i]} for i in range(len(alpha))]
     # every ordered pair of values of the same field type (with repetition)
     for i, j in itertools.product(range(len(alpha)), repeat=2):
-        if alpha[i][1] == alpha[j][1] and (run.tier == 'thorough' or alpha[i][0] != alpha[j][0] or i == j):
+        if alpha[i][1] == alpha[j][1] and (run.tier == 'thorough' or alpha[i][0] != alpha[j][0] or i == j or
+                                           alpha[i][0] == 'datetime-named-zone'):
             cases.append({'vals': [i, j]})
     cases += [{'vals': [i], 'nres': 3} for i in range(len(alpha))]
     batches = [cases[i:i + 12] for i in range(0, len(cases), 12)]
